@@ -273,6 +273,9 @@ func c19Dir() (dir, fname string) {
 	return dir, filepath.Join(dir, "pprof", "settings.json")
 }
 
+// c19Stray: the next seqCase starts with stray files in the settings directory.
+var c19Stray bool
+
 func c19RunSettings(c *Ctx, fields []driver.VerifField) {
 	defer os.RemoveAll("c19set")
 	seqCase := func(gen string, cur driver.VerifConfig, init string, initNames []string, initCfgs []driver.VerifConfig, ops []c19Op) {
@@ -302,6 +305,18 @@ func c19RunSettings(c *Ctx, fields []driver.VerifField) {
 				l = append(l, L(S(initNames[i]), c19CfgTerm(initCfgs[i])))
 			}
 			initT = L(S("good"), L(l...))
+		}
+		if c19Stray {
+			// leftovers of earlier (killed) runs and of other tools in the settings directory: none of
+			// them may end up in, or break, what the next save writes
+			d := filepath.Dir(fname)
+			os.MkdirAll(d, 0o700)
+			junk := "{\n  \"configs\": [\n    {\n      \"name\": \"stale\",\n      \"focus\": \"" + strings.Repeat("leftover ", 600) + "\"\n"
+			for _, n := range []string{".tmp", ".tmp123456789", "~", ".bak", ".tmp0000000001"} {
+				os.WriteFile(fname+n, []byte(junk), 0o600)
+			}
+			os.WriteFile(filepath.Join(d, ".settings.json.swp"), []byte(junk), 0o600)
+			os.Mkdir(fname+".d", 0o700)
 		}
 		var opT, obs []Term
 		nt := false
@@ -419,12 +434,32 @@ func c19RunSettings(c *Ctx, fields []driver.VerifField) {
 				cfgs = append(cfgs, jsonSafe())
 			}
 		}
+		c19Stray = k%3 == 1
 		seqCase("seq-random", cur, init, names, cfgs, genOps(1+c.R.Intn(7)))
+		c19Stray = false
 	}
 	// always-generated witness of F25: a saved string option holding invalid UTF-8 is not restored intact
 	{
 		q := url.Values{"config": {"w"}, "f": {"k\xff"}}
 		seqCase("finding-F25", driver.VerifDefaultConfig(), "absent", nil, nil, []c19Op{{kind: "save", q: q}})
+		// deterministic: a settings directory full of leftovers (among them a long settings.json.tmp), then
+		// edits that make the file SHORTER and longer again
+		mkc := func(f string) driver.VerifConfig {
+			cfg, _, _ := driver.VerifSetField(driver.VerifDefaultConfig(), "focus", f)
+			return cfg
+		}
+		for _, ops := range [][]c19Op{
+			{{kind: "delete", name: "c"}, {kind: "menu", q: url.Values{}}, {kind: "save", q: url.Values{"config": {"n"}, "h": {"x"}}}, {kind: "delete", name: "a"}},
+			{{kind: "save", q: url.Values{"config": {"a"}, "f": {"s"}}}, {kind: "delete", name: "b"}, {kind: "delete", name: "c"}, {kind: "delete", name: "a"}},
+		} {
+			c19Stray = true
+			seqCase("seq-stray", driver.VerifDefaultConfig(), "good", []string{"a", "b", "c"},
+				[]driver.VerifConfig{mkc(strings.Repeat("long", 40)), mkc("bb"), mkc(strings.Repeat("tail", 60))}, ops)
+			c19Stray = false
+		}
+		c19Stray = true
+		seqCase("seq-stray", driver.VerifDefaultConfig(), "absent", nil, nil, []c19Op{{kind: "save", q: url.Values{"config": {"first"}}}, {kind: "menu", q: url.Values{}}})
+		c19Stray = false
 	}
 	// more of class F25: invalid UTF-8 in option values and names, followed by menu / delete / re-save
 	bad := []string{"k\xff", "\xc3(", "a\x80b", "\xed\xa0\x80"}
@@ -492,7 +527,9 @@ func c19RunSettings(c *Ctx, fields []driver.VerifField) {
 				ops = append(ops, c19Op{kind: "delete", name: existing()})
 			}
 		}
+		c19Stray = k%2 == 0
 		seqCase("seq-failed-edit", driver.VerifDefaultConfig(), "good", names, cfgs, ops)
+		c19Stray = false
 	}
 	c.Extra["read_faults_producible"] = c19ReadFaultWorks()
 	c19RunConc(c, fields)
@@ -687,7 +724,22 @@ func c19EditsChild(args []string) {
 		cfgs = append(cfgs, cfg)
 		initL = append(initL, L(S(names[i]), c19CfgTerm(cfg)))
 	}
-	if err := driver.VerifWriteSettings(fname, names, cfgs); err != nil {
+	initT := Term(nil)
+	if variant == "after" {
+		// second step of a crash history: a NEW process edits whatever an earlier (killed) save left in
+		// the settings directory; the file as it is now is the model's initial state
+		names, cfgs, initL = nil, nil, nil
+		if _, serr := os.Stat(fname); serr != nil {
+			initT = L(S("absent"))
+		} else if rn, rc, rerr := driver.VerifReadSettings(fname); rerr != nil {
+			initT = L(S("corrupt"))
+		} else {
+			names, cfgs = rn, rc
+			for i := range names {
+				initL = append(initL, L(S(names[i]), c19CfgTerm(cfgs[i])))
+			}
+		}
+	} else if err := driver.VerifWriteSettings(fname, names, cfgs); err != nil {
 		fmt.Println("error:", err)
 		os.Exit(3)
 	}
@@ -705,6 +757,14 @@ func c19EditsChild(args []string) {
 	}
 	ops := []c19Op{first, {kind: "menu", q: url.Values{}}, {kind: "save", q: url.Values{"config": {"e"}, "s": {"x"}}},
 		{kind: "delete", name: "b"}, {kind: "save", q: url.Values{"config": {"c"}, "i": {"y"}}}}
+	if variant == "after" {
+		// first make the file SHORTER (delete what is there), then longer again
+		ops = nil
+		for i := len(names) - 1; i >= 0 && i >= len(names)-2; i-- {
+			ops = append(ops, c19Op{kind: "delete", name: names[i]})
+		}
+		ops = append(ops, c19Op{kind: "menu", q: url.Values{}}, c19Op{kind: "save", q: url.Values{"config": {"z"}, "h": {"x"}}}, c19Op{kind: "delete", name: "z"})
+	}
 	strs := map[string]bool{}
 	c19CollectCfg(strs, cur)
 	for _, cfg := range cfgs {
@@ -740,7 +800,10 @@ func c19EditsChild(args []string) {
 		opT = append(opT, o.term())
 		obs = append(obs, L(ZI(code), c19SettingsState(fname), Bool(c19FileAgrees(fname, fields))))
 	}
-	in := L(S("seq"), c19PfTable(strs), c19JsTable(map[string]bool{}), c19CfgTerm(cur), L(S("good"), L(initL...)), L(opT...))
+	if initT == nil {
+		initT = L(S("good"), L(initL...))
+	}
+	in := L(S("seq"), c19PfTable(strs), c19JsTable(map[string]bool{}), c19CfgTerm(cur), initT, L(opT...))
 	b, _ := json.Marshal(map[string]string{"in": Render(in), "obs": Render(L(obs...))})
 	fmt.Println(string(b))
 }
